@@ -695,6 +695,19 @@ class GeminiServerProtocol(asyncio.Protocol):
                 StatusCode.TEMPORARY_FAILURE,
                 "Server error: upload handler requires event loop",
             )
+        except Exception as e:
+            # The handler failed before it produced an awaitable (it raised,
+            # or returned something that is not a coroutine): answer as for
+            # any other upload error instead of leaving the client unanswered
+            logger.error(
+                "titan_upload_error",
+                client_ip=client_ip,
+                error=str(e),
+                exception_type=type(e).__name__,
+            )
+            self._send_error_response(
+                StatusCode.TEMPORARY_FAILURE, f"Upload error: {str(e)}"
+            )
 
     def _handle_titan_upload_result(self, task: asyncio.Task, client_ip: str) -> None:
         """Handle the result of a Titan upload.
